@@ -21,12 +21,12 @@
 (* ("remove", what Python 3.4 does: the next import runs the body again).                     *)
 EXTENDS PyImportCfg, Json
 
-VARIABLES cfg, policy, store, stack, exc, ns, nsall, cnt, log, cls, obs, runs, fails, made, binds, steps
-vars == <<cfg, policy, store, stack, exc, ns, nsall, cnt, log, cls, obs, runs, fails, made, binds, steps>>
+VARIABLES prog, policy, store, stack, exc, ns, nsall, cnt, log, cls, obs, runs, fails, made, binds, steps
+vars == <<prog, policy, store, stack, exc, ns, nsall, cnt, log, cls, obs, runs, fails, made, binds, steps>>
 
 Op(o) == [form |-> o, t |-> "-"]
 ValuesOf(m) == [v |-> m \o ".v", _h |-> m \o "._h", pub |-> m \o ".pub"]
-SetOp(m, a) == [form |-> "set", t |-> "-", vals |-> ValuesOf(m), hasall |-> a # "no", all |-> AllList(a)]
+SetOp(m, a) == [form |-> "set", t |-> "-", vals |-> ValuesOf(m), allv |-> a, hasall |-> a # "no", all |-> AllList(a)]
 BodyOf(c, m) ==
   IF m = Main THEN c.main
   ELSE LET mc == c.mods[m] IN
@@ -34,14 +34,16 @@ BodyOf(c, m) ==
     ELSE <<Op("run")>> \o (IF mc.raises = "early" THEN <<Op("raise")>> ELSE <<>>) \o mc.pre
          \o << SetOp(m, mc.all) >> \o mc.post
          \o (IF mc.raises = "late" THEN <<Op("raise")>> ELSE <<>>) \o <<Op("end")>>
-Body(m) == BodyOf(cfg, m)
-
 Policies(c) == IF \E m \in Mods : c.mods[m].raises # "no" THEN {"remove", "keep"} ELSE {"remove"}
+(* prog is the configuration in executable form, computed once per behaviour: the bodies, the module kinds *)
+(* and the number of behaviours the model allows for this configuration (see policy)                      *)
+ProgOf(f, c) == [fam |-> f, bodies |-> [m \in All |-> BodyOf(c, m)], kinds |-> [m \in Mods |-> c.mods[m].kind], alts |-> Cardinality(Policies(c))]
+Body(m) == prog.bodies[m]
 
 Frame(m) == [m |-> m, pc |-> 1, wait |-> FALSE, tc |-> "-"]
 
-InitWith(S) ==
-  /\ cfg \in S /\ policy \in Policies(cfg)
+InitWith(f, S) ==
+  /\ \E c \in S : prog = ProgOf(f, c) /\ policy \in Policies(c)
   /\ store = {} /\ stack = << Frame(Main) >> /\ exc = "none"
   /\ ns = [m \in All |-> EmptyNs] /\ nsall = [m \in All |-> "no"] /\ cnt = [m \in Mods |-> 0]
   /\ log = <<>> /\ cls = <<>> /\ obs = <<>>
@@ -66,7 +68,7 @@ Advance(es, cs) ==
      THEN /\ obs' = Append(obs, [log |-> log \o es, cls |-> cls \o cs, store |-> store'])
           /\ log' = <<>> /\ cls' = <<>>
      ELSE /\ log' = log \o es /\ cls' = cls \o cs /\ UNCHANGED obs
-ClsOf(s, tc) == "form=" \o s.form \o ",target=" \o tc
+ClsOf(s, tc) == <<"stmt", s.form, tc>>
 ImportErrorEntry == << <<Top.m, Idx, "ImportError">> >>
 
 AtImport == Active /\ exc = "none" /\ Cur.form \in Forms
@@ -76,7 +78,7 @@ MissingModule ==
   /\ AtImport /\ ~Top.wait /\ Cur.t = Missing
   /\ store' = store
   /\ Advance(ImportErrorEntry, << ClsOf(Cur, "missing") >>)
-  /\ Tick /\ UNCHANGED <<cfg, policy, exc, ns, nsall, cnt, runs, fails, made, binds>>
+  /\ Tick /\ UNCHANGED <<prog, policy, exc, ns, nsall, cnt, runs, fails, made, binds>>
 
 (* first import in this context: the module is registered BEFORE its body runs *)
 RegisterBeforeRun ==
@@ -86,26 +88,23 @@ RegisterBeforeRun ==
      /\ ns' = [ns EXCEPT ![t] = EmptyNs] /\ nsall' = [nsall EXCEPT ![t] = "no"] /\ cnt' = [cnt EXCEPT ![t] = 0]
      /\ made' = [made EXCEPT ![t] = @ + 1] /\ binds' = [binds EXCEPT ![t] = <<>>]
      /\ stack' = Append(SetTop([Top EXCEPT !.wait = TRUE, !.tc = "first"]), Frame(t))
-  /\ Tick /\ UNCHANGED <<cfg, policy, exc, log, cls, obs, runs, fails>>
-
-(* the module table has it (complete, or partial because it is still loading further down the stack) *)
-FoundInStore ==
-  /\ AtImport /\ ~Top.wait /\ Cur.t \in store
-  /\ stack' = SetTop([Top EXCEPT !.wait = TRUE, !.tc = IF OnStack(Cur.t) THEN "loading" ELSE "loaded"])
-  /\ Tick /\ UNCHANGED <<cfg, policy, store, exc, ns, nsall, cnt, log, cls, obs, runs, fails, made, binds>>
+  /\ Tick /\ UNCHANGED <<prog, policy, exc, log, cls, obs, runs, fails>>
 
 (* from t import *  binds exactly __all__ if t has one, else the names not starting with an underscore *)
 StarNames(t) == IF nsall[t] = "no" THEN { n \in Names \ Private : ns[t][n] # Unbound }
                 ELSE { AllList(nsall[t])[i] : i \in 1..Len(AllList(nsall[t])) }
 
-(* the module object is available: bind what the statement form says and observe it *)
+(* The module table has the module - complete, or partial because it is still loading further down the    *)
+(* stack, or just loaded by this very statement: bind what the statement form says and observe it.       *)
+TargetClass == IF Top.wait THEN Top.tc ELSE IF OnStack(Cur.t) THEN "loading" ELSE "loaded"
 BindNames ==
-  /\ AtImport /\ Top.wait /\ Cur.t \in store
+  /\ AtImport /\ Cur.t \in store
   /\ store' = store
-  /\ LET s == Cur  t == s.t  I == Top.m  T == ns[t]  c == << ClsOf(s, Top.tc) >> IN
+  /\ LET s == Cur  t == s.t  I == Top.m  T == ns[t]  c == << ClsOf(s, TargetClass) >> IN
      CASE s.form \in ModuleForms ->
             /\ cnt' = [cnt EXCEPT ![t] = @ + 1] /\ binds' = [binds EXCEPT ![t] = Append(@, cnt[t] + 1)]
-            /\ Advance(<< <<I, Idx, "mod", t, ToString(cnt[t] + 1), IF T.v = Unbound THEN "AttributeError" ELSE T.v>> >>, c)
+            \* "same": the object bound is the very object registered under t in the module table
+            /\ Advance(<< <<I, Idx, "mod", t, ToString(cnt[t] + 1), IF T.v = Unbound THEN "AttributeError" ELSE T.v, "same">> >>, c)
             /\ UNCHANGED ns
        [] s.form \in NameForms ->
             IF T.v = Unbound
@@ -117,27 +116,27 @@ BindNames ==
             LET new == [n \in Names |-> IF n \in StarNames(t) THEN T[n] ELSE ns[I][n]] IN
             /\ ns' = [ns EXCEPT ![I] = new]
             /\ Advance(<< <<I, Idx, "star", new.v, new._h, new.pub, new.w>> >>, c) /\ UNCHANGED <<cnt, binds>>
-  /\ Tick /\ UNCHANGED <<cfg, policy, exc, nsall, runs, fails, made>>
+  /\ Tick /\ UNCHANGED <<prog, policy, exc, nsall, runs, fails, made>>
 
 (* the other steps of a module body *)
 RunBodyStep ==
   /\ Active /\ exc = "none" /\ Cur.form \in {"run", "end", "set", "raise"}
   /\ LET m == Top.m  nxt == SetTop([Top EXCEPT !.pc = @ + 1]) IN
-     CASE Cur.form = "run" -> /\ log' = Append(log, <<"run", m>>) /\ cls' = Append(cls, "body=run,kind=" \o cfg.mods[m].kind)
+     CASE Cur.form = "run" -> /\ log' = Append(log, <<"run", m>>) /\ cls' = Append(cls, <<"body", "run", prog.kinds[m]>>)
                               /\ runs' = [runs EXCEPT ![m] = @ + 1] /\ stack' = nxt /\ UNCHANGED <<exc, ns, nsall>>
-       [] Cur.form = "end" -> /\ log' = Append(log, <<"end", m>>) /\ cls' = Append(cls, "body=end,kind=" \o cfg.mods[m].kind)
+       [] Cur.form = "end" -> /\ log' = Append(log, <<"end", m>>) /\ cls' = Append(cls, <<"body", "end", prog.kinds[m]>>)
                               /\ stack' = nxt /\ UNCHANGED <<exc, ns, nsall, runs>>
        [] Cur.form = "set" -> /\ ns' = [ns EXCEPT ![m] = [n \in Names |-> IF n \in DOMAIN Cur.vals THEN Cur.vals[n] ELSE @[n]]]
-                              /\ nsall' = [nsall EXCEPT ![m] = cfg.mods[m].all]
+                              /\ nsall' = [nsall EXCEPT ![m] = Cur.allv]
                               /\ stack' = nxt /\ UNCHANGED <<exc, log, cls, runs>>
        [] Cur.form = "raise" -> exc' = "ValueError" /\ UNCHANGED <<stack, ns, nsall, log, cls, runs>>
-  /\ Tick /\ UNCHANGED <<cfg, policy, store, cnt, obs, fails, made, binds>>
+  /\ Tick /\ UNCHANGED <<prog, policy, store, cnt, obs, fails, made, binds>>
 
 (* a body ran to its end: the import that started it can bind *)
 FinishImport ==
   /\ stack # <<>> /\ exc = "none" /\ Top.pc > Len(Body(Top.m))
   /\ stack' = Rest
-  /\ Tick /\ UNCHANGED <<cfg, policy, store, exc, ns, nsall, cnt, log, cls, obs, runs, fails, made, binds>>
+  /\ Tick /\ UNCHANGED <<prog, policy, store, exc, ns, nsall, cnt, log, cls, obs, runs, fails, made, binds>>
 
 (* an exception leaves a module body: the import fails, the importer's statement raises it *)
 FailBody ==
@@ -145,16 +144,16 @@ FailBody ==
   /\ stack' = Rest
   /\ store' = IF policy = "remove" THEN store \ {Top.m} ELSE store
   /\ fails' = [fails EXCEPT ![Top.m] = @ + 1]
-  /\ Tick /\ UNCHANGED <<cfg, policy, exc, ns, nsall, cnt, log, cls, obs, runs, made, binds>>
+  /\ Tick /\ UNCHANGED <<prog, policy, exc, ns, nsall, cnt, log, cls, obs, runs, made, binds>>
 
 (* ... and the main program catches it; the context stays usable *)
 CatchInMain ==
   /\ stack # <<>> /\ exc # "none" /\ Top.m = Main
   /\ store' = store /\ exc' = "none"
-  /\ Advance(<< <<Main, Idx, exc>> >>, << ClsOf(Cur, Top.tc) \o ",body raised" >>)
-  /\ Tick /\ UNCHANGED <<cfg, policy, ns, nsall, cnt, runs, fails, made, binds>>
+  /\ Advance(<< <<Main, Idx, exc>> >>, << <<"raised", Cur.form, Top.tc>> >>)
+  /\ Tick /\ UNCHANGED <<prog, policy, ns, nsall, cnt, runs, fails, made, binds>>
 
-Next == MissingModule \/ RegisterBeforeRun \/ FoundInStore \/ BindNames \/ RunBodyStep \/ FinishImport \/ FailBody \/ CatchInMain
+Next == MissingModule \/ RegisterBeforeRun \/ BindNames \/ RunBodyStep \/ FinishImport \/ FailBody \/ CatchInMain
 Final == stack = <<>>
 
 (* ---------------------------------- what C19 demands of the model ---------------------------------- *)
@@ -172,14 +171,13 @@ Provenance == \A m \in All : \A n \in Names : ns[m][n] # Unbound =>
                  \E o \in Mods : ns[m][n] = ValuesOf(o)[IF n = "w" THEN "v" ELSE n]
 (* an underscore name reaches another namespace only through an __all__ that lists it *)
 StarRespectsUnderscore == \A m \in All : ns[m]._h # Unbound /\ (m = Main \/ ns[m]._h # ValuesOf(m)._h) =>
-                 \E o \in Mods : cfg.mods[o].all = "vh"
+                 \E o \in Mods : \E i \in 1..Len(Body(o)) : Body(o)[i].form = "set" /\ Body(o)[i].allv = "vh"
 (* every statement of the main program completes, whatever failed before it: the context stays usable, cycles terminate *)
 (* (a body is at most 9 steps long with at most 4 imports of 2 steps each; after a failure everything unwinds to the main program) *)
-Terminates == steps <= Len(cfg.main) * (3 + Cardinality(Mods) * 14) + 1
-Usable == Final => Len(obs) = Len(cfg.main)
+Terminates == steps <= Len(Body(Main)) * (3 + Cardinality(Mods) * 14) + 1
+Usable == Final => Len(obs) = Len(Body(Main))
 TypeOK == store \subseteq Mods /\ exc \in {"none", "ValueError"} /\ policy \in {"remove", "keep"}
 
 (* ------------------------------------------- export --------------------------------------------- *)
-Emit == Final => PrintT(ToJson([kinds |-> [m \in Mods |-> cfg.mods[m].kind], bodies |-> [m \in All |-> Body(m)],
-                                policy |-> policy, alts |-> Cardinality(Policies(cfg)), obs |-> obs]))
+Emit == Final => PrintT(ToJson([fam |-> prog.fam, kinds |-> prog.kinds, bodies |-> prog.bodies, policy |-> policy, alts |-> prog.alts, obs |-> obs]))
 =============================================================================
